@@ -7,6 +7,21 @@ def g(name, pkg, q=4, t=16, **kw):
     return d
 
 PROPS = {
+    "C01": {
+        "level": "exploration",
+        "groups": [g("main", "c01", q=12, t=32, run="^Test(Regress|Known.*|Prop)$", gomaxprocs=[1, 2, 4, 16])],
+        "timeout": {"quick": 300, "thorough": 1800},
+        "rule": ("generated: codec{proto,json} x QoS{unreliable,reliable,partial} x flush policy{none,interval 1-20ms,size 0-64B,interval-or-size,immediate} "
+                 "x 0-3 pre-registered data ids (aliases in the open response: all/some/none) x 1-4 concurrent writer programs of up to 25 ops "
+                 "(write 0-4 points with payload sizes 0..64KiB to pooled or fresh ids, flush, yield, sleep) x broker ack plan {immediate,batched,reordered,"
+                 "duplicated} x alias assignment {never,first sight,later,partial} x result codes (success or any failure code); then Close. "
+                 "Oracle: broker ledger decoded through the alias table the broker itself published == accepted multiset, per writer/id order, seq 1..N, "
+                 "close totals, no chunk after close request, send hook == transmitted content once, ack hook once with the broker's code, DataIDs list. "
+                 "Non-trivial = >=2 chunks and (alias substituted in a later chunk, or >=2 writers, or explicit Flush under a cutting policy, or batched/"
+                 "reordered acks); distinct by case hash."),
+        "assumptions": ["sim link is loss-free FIFO per direction", "hooks are matched 200 ms after Close returned so late is told apart from lost",
+                        "result codes 2 (NormalClosure, wire alias of Succeeded) and 30 (TooShortPingInterval, C11's finding) are not sent by the scripted broker"],
+    },
     "C17": {
         "level": "exploration",
         "groups": [g("main", "c17", q=4, t=16, run="^Test(Regress|Grid|RoundTrip|KeyValues|Binary|Derive|DialConfig)$")],
